@@ -221,7 +221,13 @@ def rebin_case(draw):
     else:
         x = [100 * draw(uf) for _ in range(n)]
     sample = draw(st.booleans())
-    if dtype in ('f8', '>f8') and (sample or all(o == 'keep' for o in ops)) and draw(st.integers(0, 3)) == 0:
+    if draw(st.integers(0, 11)) == 0:
+        # every axis kept as it is (a copy), values of any finite size
+        shape = [draw(st.integers(2, 6)) for _ in range(ndim)]
+        target, ops, dtype, sample = list(shape), ['keep'] * ndim, 'f8', False
+        n = int(np.prod(shape))
+        x = [0.0] * n
+    if dtype in ('f8', '>f8') and (sample or all(o == 'keep' for o in ops)) and (draw(st.integers(0, 3)) == 0 or all(o == 'keep' for o in ops)):
         # picks and unchanged axes only copy samples: finite values of any size, also next to each other with opposite signs
         x = [draw(st.sampled_from([1.7e308, -1.7e308, 1e308, -3e307, 0.0, 1.0])) for _ in range(n)]
     return dict(shape=shape, target=target, ops=ops, dtype=dtype, x=x, sample=sample)
